@@ -490,5 +490,7 @@ Definition num_fmt_radix (radix : Z) (n : num) : out text :=
   | Fixnum z => Ok (show_int_radix radix z)
   | BigInt z => Ok (show_int_radix radix z)
   | Rational a b => Ok (ratio_fmt radix a b)
-  | Float f => float_fmt_radix radix f
+  | Float f =>
+      (* fix: an infinity or a NaN has no digits in any radix and is printed as in radix 10 *)
+      if f64_is_finite f then float_fmt_radix radix f else Ok (num_display (Float f))
   end.
